@@ -26,6 +26,58 @@ var collidingDNSHosts [][2]string // ... and their host names
 var collidingSelectors [][2]string // element-hiding selectors with equal FastHash
 var collidingSeqTexts [][2]string // rule texts "/xyz^" (sequential table: shortcut shorter than 5) with equal FastHash
 
+// zeroHashNames returns domain names whose 32-bit hash is exactly 0 — the value FastHash also gives the empty string.
+// Meet in the middle over "pppp" + "mmmm" + ".com" using the structure of djb2-xor (h' = h*33 ^ c is invertible);
+// every candidate is re-checked with the library's own function, so a different hash function simply yields none.
+var zeroHashCache []string
+
+func zeroHashNames() []string {
+	if zeroHashCache != nil {
+		return zeroHashCache
+	}
+	zeroHashCache = []string{}
+	const inv33 = uint32(0x3E0F83E1)
+	fwd := make(map[uint32][4]byte, 460000)
+	al := "abcdefghijklmnopqrstuvwxyz"
+	var p [4]byte
+	for a := 0; a < 26; a++ {
+		for b := 0; b < 26; b++ {
+			for c := 0; c < 26; c++ {
+				for d := 0; d < 26; d++ {
+					p = [4]byte{al[a], al[b], al[c], al[d]}
+					h := uint32(5381)
+					for _, ch := range p {
+						h = h*33 ^ uint32(ch)
+					}
+					fwd[h] = p
+				}
+			}
+		}
+	}
+	for _, tld := range []string{".com", ".org", ".net"} {
+		for a := 0; a < 26 && len(zeroHashCache) < 9; a++ {
+			for b := 0; b < 26; b++ {
+				for c := 0; c < 26; c++ {
+					for d := 0; d < 26; d++ {
+						suf := string([]byte{al[a], al[b], al[c], al[d]}) + tld
+						h := uint32(0)
+						for i := len(suf) - 1; i >= 0; i-- {
+							h = (h ^ uint32(suf[i])) * inv33
+						}
+						if pre, ok := fwd[h]; ok {
+							name := string(pre[:]) + suf
+							if filterutil.FastHash(name) == 0 {
+								zeroHashCache = append(zeroHashCache, name)
+							}
+						}
+					}
+				}
+			}
+		}
+	}
+	return zeroHashCache
+}
+
 func findCollisions() {
 	if collidingWindows != nil {
 		return
@@ -409,6 +461,18 @@ func init() {
 							v = strings.ToLower(strings.TrimPrefix(v, "~"))
 							reqs = append(reqs, Req{Kind: "url", URL: "http://example.org/ad/x", Source: "https://" + v + "/", Type: 4},
 								Req{Kind: "url", URL: "http://example.org/x", Source: "https://x." + v + "/p", Type: 2})
+						}
+					}
+				}
+				if i%12 == 7 {
+					// names whose hash is 0, the value the hash function also gives the empty string (a hostname with a trailing
+					// dot has an empty last label): rules keyed by such a name in the $domain table are found like any other
+					if zs := zeroHashNames(); len(zs) > 0 {
+						z := Pick(g, zs)
+						at := g.Intn(len(ls))
+						ls[at].content += "/ad$domain=" + z + "\n@@/ad/x$domain=" + z + "|other.org\n/b$domain=~" + z + "|example.net\n"
+						for _, src := range []string{"https://" + z + "/", "https://sub." + z + "/p", "https://" + z + "./", "https://example.net/", "https://x" + z + "/"} {
+							reqs = append(reqs, Req{Kind: "url", URL: "http://example.org/ad/x", Source: src, Type: 4}, Req{Kind: "url", URL: "http://example.org/b", Source: src, Type: 2})
 						}
 					}
 				}
